@@ -336,6 +336,20 @@ theorem wr_inv_run : ∀ (as : List WrAct) (s s' : WrS), WrInv s → wrRun s as 
 theorem c14_one_wrte_in_flight (as : List WrAct) (s : WrS) (hr : wrRun {} as = some s) (hf : s.failed = false) :
     s.unacked ≤ 1 := ((wr_inv_run as {} s wr_inv_init hr).1 hf).1
 
+/-- C14: whoever handles the device's acknowledgement of a write (the writer itself or a concurrent reader of the
+    stream) finds the stream expecting it: the flag is raised together with the WRTE going out -/
+theorem c14_write_ack_is_expected (as : List WrAct) (s : WrS) (hr : wrRun {} as = some s) (hf : s.failed = false)
+    (hu : 0 < s.unacked) : s.expecting = true := by
+  obtain ⟨a1, a2, _⟩ := (wr_inv_run as {} s wr_inv_init hr).1 hf
+  exact a2 (by omega)
+
+/-- raising the flag only after the WRTE went out is not safe: the acknowledgement can be handled in between and is
+    then 'unexpected' (the reader raises AdbProtocolError, the writer times out) -/
+theorem late_expecting_flag_makes_the_ack_unexpected :
+    ∃ s, wrLateRun {} [.send, .okay, .mark] = some s ∧ s.unexpectedOkay = true ∧ s.expecting = true ∧ s.unacked = 0 := by
+  refine ⟨_, rfl, ?_⟩
+  decide
+
 /-! ### no lost wake-up -/
 
 def WkInv (s : WkS) : Prop :=
